@@ -264,8 +264,8 @@ static int ex_search(char **pat)
 	int dir, row;
 	int delim = **pat;
 	char *kw = re_read(pat);
-	if (kw != NULL && *kw)
-		ex_kwdset(kw, delim == '/' ? 1 : -1);
+	if (kw != NULL && (*kw || xkwddir))
+		ex_kwdset(*kw ? kw : NULL, delim == '/' ? 1 : -1);
 	free(kw);
 	if (ex_kwd(&pat_re, &dir))
 		return -1;
